@@ -1,5 +1,6 @@
 //! Harness CLI.  Executes, observes, projects and records; all judging is done by TLC on the traces
 //! (the fast path only compares records with what TLC printed).
+mod afaultrun;
 mod awalkrun;
 mod aworld;
 mod cfg;
@@ -82,7 +83,11 @@ fn main() {
                 seed: get("seed", "1").parse().unwrap(), out: PathBuf::from(get("out", "work/faults")), threads: 1, walks: 0, len: 0, light: false,
                 split: a.contains_key("split"), lower_only: false, max_events: 100000000, ops: vec![],
             };
-            println!("{}", faultrun::run(lts, &o, get("pairs", "50").parse().unwrap()));
+            if o.cfg.starts_with("async:") {
+                println!("{}", afaultrun::run(lts, &o, get("pairs", "50").parse().unwrap()));
+            } else {
+                println!("{}", faultrun::run(lts, &o, get("pairs", "50").parse().unwrap()));
+            }
             0
         }
         "awalk" => {
